@@ -1,6 +1,7 @@
 /-
   Proofs/RpcFix/SegFirst — C11 for a responder whose parser state is RESET after a reply (ONC-RPC over
-  TCP since the repair of `repl_tcp`): the conclusion of C11 restricted to what the property speaks
+  TCP since the repair of `repl_tcp`, HTTP since the repair of `http::repl`): the conclusion of C11
+  restricted to what the property speaks
   of, the FIRST request of a flow (`SegIndepFirst`): bare ACKs before the trigger position, and exactly
   the segment containing the trigger byte carries the reply of the unsegmented stream.  Nothing is said
   about later segments (they belong to the next request).  `SegIndep` (Proofs/C11/Feed) implies it.
@@ -16,7 +17,7 @@ namespace Masscanned.C11
     with `R` the reply of the unsegmented stream and `n` its trigger position (if any): segments ending
     before `n` get a bare ACK, the segment containing stream byte `n` gets `R`; without a trigger
     position no segment is answered.  (`SegIndep` says in addition that every LATER segment gets `R`
-    again — true of the HTTP responder, whose final state is absorbing.) -/
+    again — true of no responder any more since ONC-RPC/TCP and HTTP reset their parser after a reply.) -/
 def SegIndepFirst (cfg : Cfg) (env : Env) (ci : ClientInfo) (all : List Bytes) : Prop :=
   ∃ t rs R, feed cfg env ci {} all = .ok (t, rs) ∧ rs.length = all.length ∧
     unseg cfg env ci all.flatten = .ok R ∧
